@@ -371,7 +371,11 @@ def parse_message(data, pos, max_header, max_body):
             return None
         if len(cl) != 1 or not is_digits(cl[0]):
             return "bad"
-        return int(cl[0])
+        sig = cl[0].lstrip(b"0")
+        if len(sig) > 18:
+            # larger than any stream or limit; avoid int()'s digit limit
+            return 10**18
+        return int(sig or b"0")
 
     framing = "none"
     length = 0
